@@ -146,6 +146,9 @@
 ; ----- element addresses: idx(off, k) = off + k, kept as a symbol so that patterns over slice elements are arithmetic-free -----
 (declare-fun idx (Int Int) Int)
 (assert (forall ((o Int) (k Int)) (! (= (idx o k) (+ o k)) :pattern ((idx o k)))))
+; element objects of a slice of struct values: element k of backing array a
+(declare-fun selem (Int Int) Int)
+(assert (forall ((a Int) (k Int)) (! (= (selem a k) (+ a 1 k)) :pattern ((selem a k)))))
 
 ; ----- polynomial evaluation as computed by vss.evaluatePolynomial (one-level unfolding, see framei) -----
 (declare-fun xpow (Int Int Int) Int)     ; x^n mod q by repeated multiplication
